@@ -69,6 +69,58 @@ GROUPS = {
         nontrivial='delays of at least 3 ms',
         functions=['add_jitter'],
     ),
+    # second line behind the Verus unit net_report
+    'net_report_bx': dict(
+        unit='net_report.rs', props=['C27'],
+        bounds=dict(quick=['4', '0'], thorough=['6', '0']),
+        space='every sequence of at most {0} probe reports drawn from 16 (https for 2 relays at 20/10/0 ms; QAD v4 and v6 each: 2 relays, latencies 20/10/15/0 ms, '
+              'three distinct observed addresses, one report carrying an address of the other family); the latency observations are also split at every '
+              'position into two tables that are merged in both orders',
+        nontrivial='sequences of at least two reports',
+        functions=['Report::{update, mapping_varies_by_dest}', 'RelayLatencies::{update_relay, merge, iter, get}'],
+    ),
+    # C09: the part the Verus unit rate_bucket leaves undecided (poll_read's use of the bucket), and a second line behind it
+    'rate_limited_bx': dict(
+        unit='rate_limited.rs', props=['C09'],
+        bounds=dict(quick=['3', '0'], thorough=['4', '0']),
+        space='every history of at most {0} polls of RateLimited::poll_read (1024-byte buffer) for 4 initial configurations (1000 B/s, 10 B/s, 100 kB/s with burst 1, '
+              'no limit), each poll preceded by a clock step from 8 (0/50/100/1000 ms, exactly to / 1 ms before / one period before / half-way to the instant the '
+              'reference bucket has refilled) and being one of 8 actions (inner stream pending, 1/64/5000 bytes available, or a live reconfiguration to 1000 B/s, '
+              '100 kB/s burst 1, the invalid 5 B/s, or no limit, followed by a 64-byte read) — under a mock clock and mock watch channel',
+        nontrivial='histories of at least two polls',
+        functions=['RateLimited::{from_watcher, poll_read, record_rate_limited}', 'Bucket::{new, from_config, update_state, consume}'],
+    ),
+    # second line behind the Verus unit path_selector
+    'path_selector_bx': dict(
+        unit='path_selector.rs', props=['C24'],
+        bounds=dict(quick=['3', '0'], thorough=['3', '1']),
+        space='every list of at most {0} candidate paths over 6 addresses (two IPv4, one IPv6, two relay, one custom transport) x 18 statistics (unreadable, 0..10 ms in '
+              '1 ms steps, 4.999/5.001/12.999/13/20 ms, 1 h; wide={1}: 12 more values around the thresholds and an extreme), the same address possibly several times, '
+              'with the current path being none or any of the 6 addresses (present or not, readable or not)',
+        nontrivial='lists of at least two candidates',
+        functions=['BiasedRttPathSelector::{default, bias_for, sort_key, select}', 'TransportBias::{primary, backup, with_rtt_advantage}', 'FourTuple::addr_kind',
+                   'PathSelection::{none, set, selected}', 'PathSelectionData::network_path', 'PathSelectionContext::current'],
+    ),
+    # second line behind the Verus unit timestamp
+    'timestamp_bx': dict(
+        unit='timestamp.rs', props=['C33'],
+        bounds=dict(quick=['5', '20000'], thorough=['7', '300000']),
+        space='every sequence of at most {0} wall-clock readings from 8 values (0, 1, 2, 999, 1000, 1 s, two adjacent readings in 2023 — forwards, backwards, repeated) '
+              'after three process histories (nothing handed out yet, 5, a value ahead of the clock), run deterministically on one thread; plus ONE stress run '
+              '(a sample of schedules, not an enumeration) of 4 threads x {1} calls while the clock is moved back and forth, calls ordered by tickets',
+        nontrivial='sequences of at least two calls',
+        functions=['Timestamp::{now, as_micros}'],
+    ),
+    # C30: a schedule property; every interleaving of the scenario's lock acquisitions under a controlled scheduler
+    'lookup_services_bx': dict(
+        unit='lookup_services.rs', props=['C30'],
+        bounds=dict(quick=['2', '0'], thorough=['3', '0']),
+        space='EVERY schedule (depth-first over all choices of the controlled scheduler; scheduling points = each lock acquisition and each call into a service) of '
+              'scenarios with at most {0} threads: add | publish and add | publish;publish for 8 initial states (filter set or not, 0 or 1 service registered, nothing '
+              'or d1 published before), publish | publish with two services, add | add, and with 3 threads add | publish | publish and add | add | publish',
+        nontrivial='schedules in which the running thread changes at least once',
+        functions=['AddressLookupServices::{set_addr_filter, add, add_boxed, len, publish}'],
+    ),
     # second line behind the Verus unit builder_bind
     'builder_bind_bx': dict(
         unit='builder_bind.rs', props=['C20'],
